@@ -43,14 +43,14 @@ class Pair:
             return None if allow_oversell else f'{" ; ".join(self.log)}: after {what} position.qty = {q} but base balance = {base}'
         return None
 
-    def submit(self, side, kind, q, p):
+    def submit(self, side, kind, q, p, mq=None, mp=None):
         from jesse.models import Order
         from jesse.store import store
         import jesse.helpers as jh
         from jesse.exceptions import InsufficientBalance
         self.log.append(f'submit {side} {kind} {q}@{p}')
         try:
-            want = K.m_submit(self.v, side, kind, q, p)
+            want = K.m_submit(self.v, side, kind, q if mq is None else mq, p if mp is None else mp)
             model_rejects = False
         except K.InsufficientBalance:
             model_rejects = True
@@ -66,21 +66,23 @@ class Pair:
         if rejected:
             return None, 'END'
         store.orders.add_order(o)
+        o._mq, o._mp = (q if mq is None else mq), (p if mp is None else mp)
         self.v = want
         self.resting.append(o)
         return o, self.compare('submission')
 
     def cancel(self, o):
         self.log.append(f'cancel {o.side} {o.type} {abs(o.qty)}@{o.price}')
-        self.v = K.m_cancel(self.v, o.side, o.type, abs(o.qty), o.price)
+        self.v = K.m_cancel(self.v, o.side, o.type, getattr(o, '_mq', abs(o.qty)), getattr(o, '_mp', o.price))
         o.cancel()
         self.resting.remove(o)
         return self.compare('cancellation')
 
     def execute(self, o, allow_oversell=False):
         self.log.append(f'execute {o.side} {o.type} {abs(o.qty)}@{o.price}')
-        over = K.oversell(self.v, o.side, abs(o.qty))
-        self.v = K.m_execute(self.v, o.side, o.type, abs(o.qty), o.price, self.fee)
+        mq, mp = getattr(o, '_mq', abs(o.qty)), getattr(o, '_mp', o.price)
+        over = K.oversell(self.v, o.side, mq)
+        self.v = K.m_execute(self.v, o.side, o.type, mq, mp, self.fee)
         self.pos.current_price = o.price
         o.execute()
         self.resting.remove(o)
@@ -117,6 +119,8 @@ def history(rng, want, allow_oversell, steps=12):
 
 def replay(pl):
     ob = pl['obligation']
+    if ob.startswith('float'):
+        return bounded(pl)
     parts = ob.split('.')
     want = (parts[0], parts[1] if len(parts) > 1 else 'buy', parts[2] if len(parts) > 2 else 'LIMIT')
     rng = random.Random(pl.get('seed', 0))
@@ -172,3 +176,48 @@ def replay_finding(entry):
         if d and d != 'END':
             return {'confirmed': True, 'detail': d}
     return {'confirmed': False, 'detail': 'witness history agrees with the model'}
+
+
+# ------------------------------------------------------------------------------------------------ bounded float check
+GRID = ['0.05', '0.1', '0.2', '0.3', '0.7', '1.1', '2.2', '3.3']
+
+
+def bounded(pl):
+    """BOUNDED stand-in for assumption A-1 at the accept/reject boundary: decimal quantities whose exact sum equals the
+    base held.  The cash-account model runs in exact rational arithmetic, the real exchange in binary floats; the
+    accept/reject decisions must coincide (jesse sums the committed quantities with sum_floats for exactly this reason)."""
+    from fractions import Fraction as F
+    n = 0
+    px = {'MARKET': 100, 'LIMIT': 110, 'STOP': 90}
+    for a in GRID:
+        for b in GRID:
+            fa, fb = F(a), F(b)
+            held = fa + fb
+            for kinds in (('LIMIT', 'MARKET'), ('STOP', 'STOP'), ('LIMIT', 'LIMIT'), ('MARKET', 'LIMIT')):
+                for extra in (F(0), F(1, 100)):
+                    for cycle in (False, True):
+                        n += 1
+                        p = Pair(0.0)
+                        p.v = (F(10000), F(0), F(0), F(0))
+                        p.fee = F(0)
+                        o, d = p.submit('buy', 'MARKET', float(held), 100.0, held, F(100))
+                        d = d or p.execute(o)
+                        if d:
+                            return {'confirmed': True, 'detail': d, 'cases': n}
+                        if cycle and kinds[0] != 'MARKET':
+                            # a resting sell that is cancelled again must leave no residue in the committed sums
+                            o0, d = p.submit('sell', kinds[0], float(fb), float(px[kinds[0]]), fb, F(px[kinds[0]]))
+                            d = d or p.cancel(o0)
+                            if d:
+                                return {'confirmed': True, 'detail': d, 'cases': n}
+                        if kinds[0] != 'MARKET':
+                            o1, d = p.submit('sell', kinds[0], float(fa), float(px[kinds[0]]), fa, F(px[kinds[0]]))
+                            if d:
+                                return {'confirmed': True, 'detail': d, 'cases': n}
+                            q2 = fb + extra
+                        else:
+                            q2 = held + extra
+                        o2, d = p.submit('sell', kinds[1], float(q2), float(px[kinds[1]]), q2, F(px[kinds[1]]))
+                        if d and d != 'END':
+                            return {'confirmed': True, 'detail': d, 'cases': n}
+    return {'confirmed': False, 'detail': f'{n} decimal boundary histories: accept/reject decisions equal the exact cash-account model', 'cases': n}
